@@ -95,6 +95,10 @@ def opt_expr(s, lang):
         return "opts.warning(%s)" % ', '.join(repr(x) for x in v.split('+'))
     if o == 'optimize':
         return "opts.optimize(%r)" % v
+    if o == 'lib' and v:
+        return "opts.lib(%s(%r))" % (
+            'static_library' if v.endswith('.a') else 'shared_library',
+            'extlib2/' + v)
     if o == 'lib':
         return "opts.lib_dir(directory('extlib')), opts.lib('ext')"
     return "opts.%s()" % o       # debug pic pthread sanitize static
@@ -118,6 +122,28 @@ def run_case(case):
                        cwd=os.path.join(src, 'extlib'), check=True)
         subprocess.run(['ar', 'cr', 'libext.a', 'ext.o'],
                        cwd=os.path.join(src, 'extlib'), check=True)
+        # pre-built library files for opts.lib(<file object>), with a decoy
+        # of the plain name beside the shared ones
+        x2 = os.path.join(src, 'extlib2')
+        os.makedirs(x2)
+        for s in slots:
+            if s['o'] == 'lib' and s['v']:
+                nm = s['v']
+                if nm.endswith('.a'):
+                    subprocess.run(['ar', 'cr', os.path.join(x2, nm),
+                                    'ext.o'], cwd=os.path.join(src, 'extlib'),
+                                   check=True)
+                else:
+                    subprocess.run(['gcc', '-shared', '-fPIC', '-Wl,-soname,'
+                                    + nm, '-o', os.path.join(x2, nm),
+                                    'ext.c'], cwd=os.path.join(src, 'extlib'),
+                                   check=True)
+                    if nm != 'libext.so':
+                        W('extlib2/decoy.c', 'int ext_fn(void) { return 9; }\n')
+                        subprocess.run(['gcc', '-shared', '-fPIC',
+                                        '-Wl,-soname,libext.so', '-o',
+                                        'libext.so', 'decoy.c'], cwd=x2,
+                                       check=True)
         comp = {'target': [], 'global': []}
         link = {'link': [], 'globallink': []}
         env_extra, tc_lines, pch = {}, [], ''
